@@ -1014,15 +1014,20 @@ Theorem foreign_scores_refused k t dims modes : t <> TDataArray -> refused (inve
 Proof. intros H. unfold inverse_outcome. cbn [sc_ty]. destruct t; try contradiction; now exists EOther. Qed.
 
 (* ------------------------------------------------------------------ rotators *)
-Theorem rotator_too_few_refused z avail : (z <= 1)%Z -> rotator_fit_outcome (VInt z) avail = Err EValueError.
+Theorem rotator_too_few_refused chk z avail : (z <= 1)%Z -> refused (rotator_fit_outcome chk (VInt z) avail).
 Proof.
-  intros H. unfold rotator_fit_outcome, rotator_selected. cbn [bind].
-  destruct (Z.ltb_spec (Z.max 0 (Z.min z avail)) 2); [reflexivity|lia].
+  intros H. unfold rotator_fit_outcome, rotator_selected.
+  destruct (chk (VInt z)) as [[]|e]; cbn [seq_res bind]; [|now exists e].
+  destruct (Z.ltb_spec (Z.max 0 (Z.min z avail)) 2); [now exists EValueError|lia].
 Qed.
 
-(* a stop label that is not a number does not bound the slice: every mode is rotated *)
+Theorem rotator_ctor_check_refuses chk v avail k : chk v = Err k -> rotator_fit_outcome chk v avail = Err k.
+Proof. intros H. unfold rotator_fit_outcome. now rewrite H. Qed.
+
+(* without a constructor check, a stop label that is not a number does not bound the slice:
+   every mode is rotated and numbers come back *)
 Theorem rotator_non_numeric_refuted :
-  exists v avail, pyty_isinstance (ty_of v) [TInt; TFloat] = false /\ rotator_fit_outcome v avail = Ok tt.
+  exists v avail, pyty_isinstance (ty_of v) [TInt; TFloat] = false /\ rotator_fit_outcome no_ctor_check v avail = Ok tt.
 Proof. exists (VStr "few"), 4%Z. split; reflexivity. Qed.
 
 (* ------------------------------------------------------------------ concrete calls *)
@@ -1101,3 +1106,17 @@ Proof.
   split; [vm_compute; reflexivity|]. split; [|reflexivity].
   intros vd vc. exact (fitted_data_answered vd vc _ _ _ _ ex_fit).
 Qed.
+
+(* packaged forms used by Props/C17.v *)
+Theorem missing_dim_refused_when_validated_first vc f x :
+  single_fault_missing_dim f x -> Forall wf_fitem (f_items f) ->
+  refused (transform_vbs true f x) /\ refused (transform_outcome true vc f x).
+Proof.
+  intros H W. split; [exact (every_missing_dim_refused_when_validated true f x H W)|
+                      exact (every_missing_dim_refused_when_validated vc f x H W)].
+Qed.
+
+Theorem cross_transform_refused vd vc f1 f2 x y :
+  refused (transform_outcome vd vc f1 x) \/ refused (transform_outcome vd vc f2 y) ->
+  refused (cross_transform_outcome vd vc f1 f2 x y).
+Proof. intros [H|H]; [now apply cross_transform_refused_l|now apply cross_transform_refused_r]. Qed.
